@@ -25,6 +25,7 @@ def job_for(contract, mode, inputs=None):
     job = {
         'repo': REPO, 'verif': VERIF, 'target': contract.target, 'mode': mode,
         'params': dict(contract.params), 'requires': list(contract.requires),
+        'ghost_params': list((contract.ghost or {}).get('ghost_params', [])),
         # clauses stated against an independent executable specification: evaluated on the real code
         # only (the symbolic side cannot run the specification)
         'ensures': list(contract.ensures) + list(contract.ghost.get('concrete_ensures', [])),
